@@ -125,6 +125,10 @@ def check_c05(prop, tier, seed):
             continue  # an append never shrinks the value
         plans.append((n, k, [{"n": NDEF[n], "kind": KDEF[k], "readers": {"r1": "get", "r2": "gat"}, "losses": 0, "pre": "w1"},
                              {"n": NDEF[n], "kind": KDEF[k], "readers": {"r1": "get"}, "losses": 1, "pre": "w1"}], 800 if quick else 30000, ("r1", "r2"), "RGetGat"))
+    # (d) the stored value and the racing write come from the same connection
+    for n, k in (("N22", "KSetSet"), ("N11", "KSetSet")) + (() if quick else (("N32", "KSetSet"), ("N22", "KSetRep"))):
+        plans.append((n, k, [{"n": NDEF[n], "kind": KDEF[k], "readers": {"r1": "get", "r2": "gat"}, "losses": 0, "pre": "w1", "presame": True},
+                             {"n": NDEF[n], "kind": KDEF[k], "readers": {"r1": "get"}, "losses": 1, "pre": "w1", "presame": True}], 800 if quick else 30000, ("r1", "r2"), "RGetGat"))
     procs = []
     for i, (n, k, progs, maxs, readers, rkind) in enumerate(plans):
         for j, p in enumerate(progs):
